@@ -23,6 +23,10 @@ pub mod rowan {
         /// text-size: `TextSize { raw }`
         #[verifier::external_body] fn from(raw: u32) -> (r: TextSize) ensures r.raw == raw { unimplemented!() }
     }
+    impl std::convert::From<TextSize> for usize {
+        /// text-size: `value.raw as usize`
+        #[verifier::external_body] fn from(value: TextSize) -> (r: usize) ensures r == value.raw { unimplemented!() }
+    }
     #[derive(Clone, Copy)]
     pub struct TextRange { pub start: TextSize, pub end: TextSize }
     impl TextRange {
